@@ -200,6 +200,33 @@ def solver_shard(spec, res, rng):
                     res.count("approximate_probe_pairs")
                     if a1 != a2:
                         run.viol({"op": "probe"}, "unpickled-solver-approximate-answers-differ-from-original", original=a1, unpickled=a2)
+            if not run.failed and it % 3 == 1:
+                # a solver and a copy of it stored in one pickle (what a program state with several paths does): the
+                # two that come back are as independent of each other as the two that went in
+                pa = cls(track=True) if track else cls()
+                x_, y_ = run.b(al.v(0)), run.b(al.v(1 % al.nvars))
+                base_cons = [[rng.choice(["ult", "ugt", "ne"]), al.v(0), al.k()], [rng.choice(["ule", "uge", "ne"]), al.v(1 % al.nvars), al.k()]]
+                pa.add([run.b(c_) for c_ in base_cons])
+                if rng.random() < 0.5:
+                    try:
+                        pa.eval(x_, 2)
+                    except claripy.errors.ClaripyError:
+                        pass
+                pb = pa.branch()
+                qa, qb = pickle.loads(pickle.dumps((pa, pb), -1))
+                more = [rng.choice(["ult", "ugt", "eq"]), al.v(0), al.k()]
+                before = api.probe(qb, [al.v(0), al.v(1 % al.nvars)], [], run.b)
+                want = api.probe(pb, [al.v(0), al.v(1 % al.nvars)], [], run.b)
+                try:
+                    qa.add([run.b(more)])
+                    pa.add([run.b(more)])
+                except claripy.errors.ClaripyError:
+                    pass
+                after = api.probe(qb, [al.v(0), al.v(1 % al.nvars)], [], run.b)
+                res.count("pickled_together_pairs")
+                if before != want or after != want:
+                    run.viol({"op": "probe"}, "solvers-pickled-together-are-not-independent-afterwards", constraints=base_cons, added_to_the_other=more, original_copy=want, unpickled_copy_before=before, unpickled_copy_after=after)
+                keep += [pa, pb, qa, qb]
         except Exception as ex:  # noqa: BLE001
             res.violation({"kind": "pickle", "what": "history-raised", "config": run.cfg, "observed": repr(ex)[:300], "tb": traceback.format_exc()[-1500:], "history": run.log[-20:]})
         res.case([run.cfg, [e[2] for e in run.log]], bool(run.live[0].cons))
